@@ -83,6 +83,11 @@ def js_strs(fn):
             ms = re.fullmatch(r'\^(\\?.)\+|(\\?.)\+\$', pat)
             if ms and (ms.group(1) or ms.group(2))[-1] not in '.^$*+?()[]{}|\\dswDSW':
                 out.add((ms.group(1) or ms.group(2))[-1])      # /^x+/ , /x+$/: lstrip('x') / rstrip('x')
+            elif re.fullmatch(r'(\[[^\]]+\])\+?\$', pat):
+                # /[ g]+$/ -> '' peels the same trailing characters as `while (s.slice(-1).match(/[ g]/)) s = s.slice(0, -1)`
+                out.add('/' + re.fullmatch(r'(\[[^\]]+\])\+?\$', pat).group(1) + '/')
+            elif re.fullmatch(r'(\\?.)\$', pat) and re.fullmatch(r'(\\?.)\$', pat).group(1)[-1] not in '^$*+?()[]{}|dswDSW':
+                out.add(re.fullmatch(r'(\\?.)\$', pat).group(1)[-1])     # /\.$/ -> '': one trailing '.', the test endsWith('.')
             elif len(pat) == 1 and pat not in '.^$*+?()[]{}|\\':
                 out.add(pat)                    # /x/ is the one-character string 'x'
             elif len(pat) == 2 and pat[0] == '\\' and not pat[1].isalnum():
@@ -370,6 +375,8 @@ def js_replaces(fn):
                 ms = re.fullmatch(r'\^(\\?.)\+|(\\?.)\+\$', pat)
                 if ms and b == '' and (ms.group(1) or ms.group(2))[-1] not in '.^$*+?()[]{}|\\dswDSW':
                     continue                    # /^x+/ -> '' is lstrip('x'), /x+$/ -> '' is rstrip('x'): a strip, not a replacement
+                if b == '' and (re.fullmatch(r'\[[^\]]+\]\+?\$', pat) or re.fullmatch(r'\\?.\$', pat)):
+                    continue                    # /[ g]+$/ -> '' and /\.$/ -> '': trailing characters peeled off, the regex spelling of the while loop
                 if len(pat) == 1 and pat not in '.^$*+?()[]{}|\\':
                     out[('lit', pat, b, scope)] += 1
                 elif len(pat) == 2 and pat[0] == '\\' and not pat[1].isalnum():
